@@ -202,6 +202,9 @@ h!(tx_data_legal_us, tx_data_step(0), 84);
 //@h id=tx_join_legal_us props=C09,C10 tier=quick build=dev-us915 tbuilds=dev-au915 cost=90 timeout=1500
 //@bounds US915 join request; reachable join bookkeeping; RNG streams of at most 4 draws
 h!(tx_join_legal_us, tx_join_step(0), 84);
+//@h id=tx_join_legal_au915 props=C09,C10 tier=quick build=dev-au915 cost=90 timeout=1500
+//@bounds AU915 join request (quick-tier instance: AU915 numbers its data rates differently from US915: DR2 / DR6); as tx_join_legal_us
+h!(tx_join_legal_au915, tx_join_step(0), 84);
 //@h id=tx_select_terminates_us props=C04,C09 tier=quick build=dev-us915 tbuilds=dev-au915 cost=200 timeout=2400
 //@bounds US915 data frames; arbitrary mask (no invariant on it); enumerating RNG: success within 65 draws
 h!(tx_select_terminates_us, select_terminates(0, false, 65), 84);
